@@ -44,6 +44,28 @@ type NodeEvaluator interface {
 	IsDynamic() bool
 }
 
+// stateCopier is implemented by the node evaluators that own function state (EvalLambdaNode)
+// and by those that have child evaluators which may.
+type stateCopier interface {
+	// copyReset returns an evaluator that shares no function state with the receiver:
+	// the receiver itself when neither it nor its children own any,
+	// otherwise a copy in which every nested lambda has a fresh state.
+	copyReset() NodeEvaluator
+}
+
+// copyResetNodeEvaluator is the node evaluator part of Expression.CopyReset.
+// The ExecutionState an expression is evaluated with is created per copy, but a nested
+// lambda (var l = lambda: count() > 1 used inside another lambda) keeps the state of its
+// functions in the EvalLambdaNode itself. Sharing that node between the copies made
+// count(), sigma(), spread() inside it run over the points of all the copies - of every
+// group of a where/eval/alert node - together.
+func copyResetNodeEvaluator(n NodeEvaluator) NodeEvaluator {
+	if c, ok := n.(stateCopier); ok {
+		return c.copyReset()
+	}
+	return n
+}
+
 func createNodeEvaluator(n ast.Node) (NodeEvaluator, error) {
 	switch node := n.(type) {
 
